@@ -7,12 +7,12 @@ Driver ops of the sieving core of the bundled primesieve (C18 core half, model `
   psseg <start> <stop> <sieveKiB> <l1raw> <nseg> <numbers|-> <h|x>
                                                            the first <nseg> segments with the EXPLICIT ascending list of sieving numbers
                                                            (each added before the first segment with number <= isqrt(segmentHigh_))
-  pscount <start> <stop> <sieveKiB> <l1raw>                PrimeSieve::countPrimes(start, stop)
-  psgen <start> <stop> <sieveKiB> <l1raw> <h|x>            PrimeGenerator(start, stop): all fillNextPrimes batches concatenated:
+  pscorecount <start> <stop> <sieveKiB> <l1raw>                PrimeSieve::countPrimes(start, stop)
+  pscoregen <start> <stop> <sieveKiB> <l1raw> <h|x>            PrimeGenerator(start, stop): all fillNextPrimes batches concatenated:
                                                            `n=<count> first=<p> last=<p> fnv=<hash of the 8-byte LE primes>` or the list
   psgenprev <start> <stop> <sieveKiB> <l1raw> <h|x>        the same through fillPrevPrimes (leading 0 when start <= 2)
   psgenref <start> <stop> <sieveKiB> <l1raw> <h|x>         (model only) the primes of [start, stop] from the PROVED window sieve
-                                                           `windowListWith wheelBase` (PcProofs/OracleWindow.lean), format of psgen
+                                                           `windowListWith wheelBase` (PcProofs/OracleWindow.lean), format of pscoregen
   pscountref <start> <stop> <sieveKiB> <l1raw>             (model only) their number
   pswheeladd <30|210> <stop> <prime> <segmentLow>          Wheel::addSievingPrime: `multipleIndex wheelIndex` or `-`
   pspresieve <segmentLow> <size>                           PreSieve::preSieve on a fresh array: hex bytes
@@ -77,8 +77,8 @@ def psNatList (s : String) : Option (List Nat) :=
 /-- limits of the model side (the harness applies the same): sieving primes up to 2^26, at most 4096 segments -/
 def psMaxSqrt : Nat := 2 ^ 26
 
-/-- `psgen` / `psgenprev`  -/
-def psGenOp (prev : Bool) (a : List String) : String :=
+/-- `pscoregen` / `psgenprev`  -/
+def psCoreGenOp (prev : Bool) (a : List String) : String :=
   match a with
   | [start, stop, kb, l1, mode] => match start.toNat?, stop.toNat?, kb.toNat?, l1.toNat?, psMode mode with
     | some start, some stop, some kb, some l1, some hex =>
@@ -121,13 +121,13 @@ def psCoreOps : String → Option (List String → String)
           psRunOut hex (psExplicit psTabs.get nseg (eratInit l1 start stop kb) nums)
         | _, _, _, _, _, _, _ => "ERR:proto"
       | _ => "ERR:proto"
-  | "pscount" => some fun a => match a.map (·.toNat?) with
+  | "pscorecount" => some fun a => match a.map (·.toNat?) with
       | [some start, some stop, some kb, some l1] =>
         if stop ≥ 2 ^ 64 ∨ kb < 16 ∨ kb > 8192 ∨ isqrt stop > psMaxSqrt ∨ runFuel start stop > 4096 then "ERR:domain" else
         toString (countPrimes psTabs.get l1 start stop kb)
       | _ => "ERR:proto"
-  | "psgen" => some (psGenOp false)
-  | "psgenprev" => some (psGenOp true)
+  | "pscoregen" => some (psCoreGenOp false)
+  | "psgenprev" => some (psCoreGenOp true)
   | "pswheeladd" => some fun a => match a.map (·.toNat?) with
       | [some m, some stop, some prime, some low] =>
         if (m ≠ 30 ∧ m ≠ 210) ∨ stop ≥ 2 ^ 64 ∨ prime = 0 ∨ prime ≥ 2 ^ 32 ∨ low % 30 ≠ 0 ∨ low + 6 ≥ 2 ^ 64 then "ERR:domain" else
